@@ -98,12 +98,13 @@ package fscache
 //@ spec func prefixOf(b []byte, k int) string = strOf(elemsArr(b), sliceOff(b), k)
 //@ spec func suffixOf(b []byte, k int) string = strOf(elemsArr(b), sliceOff(b) + k, len(b) - k)
 //@ func (*aesgcmEncryptor).Encrypt
-//@   property C17
+//@   property C17 C14
 //@   requires e != nil && e.gcm != nil && e.r != nil
 //@   assigns lastRead
 //@   ensures result1 == nil ==> bytesOf(result0) == lastRead + sealed(e.gcm, lastRead, bytesOf(data))     # name: fresh-nonce-then-sealed-data
 //@   ensures result1 == nil ==> len(lastRead) == nonceSize(e.gcm)                                          # name: nonce-has-the-aead-size
 //@   ensures result1 != nil ==> len(result0) == 0                                                          # name: no-output-without-a-nonce
+//@   ensures bytesOf(data) == old(bytesOf(data))                                                           # name: callers-buffer-untouched   props: C14
 
 //@ func (*aesgcmEncryptor).Decrypt
 //@   property C17
